@@ -20,9 +20,9 @@ from lib import harness
 ID = "C11"
 LEVEL = "exploration"
 RULE = (
-    "read histories over {? (explicit), _ + ∇ $ (implicit pops of arity 1-3), literals, W, print} at top level and inside "
+    "read histories over {? (explicit), _ + ∇ $ (implicit pops of arity 1-3), ~+ ~∇ ~λ (arguments kept, missing ones read), literals, W, print} at top level and inside "
     "λ (arity 0-3, called with † and ß), named functions (numeric and named parameters), nested two deep, plus map lambdas; "
-    "all input lists of length 0..4 of unique values; exhaustive over a 10-symbol alphabet up to length 4 (quick) / 5 (thorough) "
+    "all input lists of length 0..4 of unique values; exhaustive over a 12-symbol alphabet up to length 4 (quick) / 5 (thorough) "
     "and random histories up to length 12; distinct_nontrivial = distinct (program, inputs) whose run delivered at least one read"
 )
 ASSUMPTIONS = [
@@ -47,6 +47,9 @@ ALPHABET = [
     [["lam", 2, [["el", "∇"], ["el", "+"], ["el", "+"]]], ["el", "†"]],
     [["call", "f"]],
     [["lam", 1, [["num", 9], ["brk"], ["el", "?"]]], ["el", "†"]],
+    # apply-without-popping on a stack that may be too short: one implicit read per missing argument
+    [["mod", "~", [["el", "+"]]]],
+    [["mod", "~", [["el", "∇"]]]],
 ]
 PRELUDE = [["def", "f", [2], [["el", "_"], ["el", "_"], ["el", "+"], ["el", "?"]]]]
 
@@ -109,9 +112,15 @@ def rnd_ops(r, depth, lazy=False, in_fn=False):
                 ar = r.choice([0, 1, 2, 3, None])
                 out.append(["lam", ar, rnd_ops(r, depth + 1, lazy, True)])
                 out.append(["el", "†"])
-            elif k < 0.7 and not lazy:
+            elif k < 0.63 and not lazy:
                 out.append(["num", 1])
                 out.append(["mod", "ß", [["lam", r.choice([0, 1, 2]), rnd_ops(r, depth + 1, lazy, True)]]])
+            elif k < 0.7 and not lazy:
+                # ~ keeps its operand's arguments: on a short stack every missing one is an implicit read
+                if r.random() < 0.6:
+                    out.append(["mod", "~", [["el", r.choice(["+", "∇", "$"])]]])
+                else:
+                    out.append(["mod", "~", [["lam", r.choice([2, 3]), rnd_ops(r, depth + 1, lazy, True)]]])
             elif k < 0.85 and not lazy:
                 out.append(["call", r.choice(["f", "g"])])
             else:
